@@ -28,6 +28,7 @@ type Cfg struct {
 	Describable    bool // restrict to what the meta-schema can express (for C09)
 	GoodDefaults   bool // never generate a default the property's type rejects
 	NoPatternProps bool
+	TypedVariants  bool // inline struct-mapped objects and nested scopes may be built with the typed constructors
 }
 
 // Full is the default configuration: everything on.
@@ -410,6 +411,9 @@ func (c *ctx) genStructObject(depth int, id, force string) *Shape {
 		name = wk.Pick(r, []string{"P1", "P1", "*P1", "P2", "P3", "P5", "*P5", "P6", "P7", "P8", "P9", "P12", "P13"})
 	}
 	s := &Shape{Kind: KObject, ID: id, Struct: name}
+	if c.cfg.TypedVariants && !c.cfg.Describable && r.Chance(25) {
+		s.Typed = true
+	}
 	intT := func() *Shape { t := &Shape{Kind: KInt}; t.Min, t.Max = genIntBounds(r, false); return t }
 	strT := func() *Shape { t := &Shape{Kind: KString}; t.Min, t.Max = genSizeBounds(r, false); return t }
 	fltT := func() *Shape { t := &Shape{Kind: KFloat}; t.FMin, t.FMax = genFloatBounds(r, false); return t }
@@ -487,6 +491,25 @@ func (c *ctx) genStructObject(depth int, id, force string) *Shape {
 		}
 		s.Props = []*Prop{{Name: "port", T: within(0, 65535)}, {Name: "retries", T: within(0, 1<<40)},
 			{Name: "limit", T: within(0, 1<<62)}, {Name: "small", T: within(-128, 127)}}
+		if !c.cfg.Describable && r.Chance(35) {
+			// (not for schemas that are compared with their map-based rebuild: the width of a Go field is not part
+			// of a description)
+			// declared bounds wider than the Go fields (or none at all): a value the schema allows but the field
+			// cannot hold must be refused, it cannot be stored
+			wide := func(lo, hi int64) *Shape {
+				switch r.Intn(3) {
+				case 0:
+					return &Shape{Kind: KInt}
+				case 1:
+					return &Shape{Kind: KInt, Min: ip(lo)}
+				}
+				return &Shape{Kind: KInt, Min: ip(lo), Max: ip(hi)}
+			}
+			s.Props[0].T, s.Props[3].T = wide(-5, 70000), wide(-200, 300)
+			if r.Bool() {
+				s.Props[1].T = wide(-3, 1<<41)
+			}
+		}
 	case "P12":
 		s.Props = []*Prop{{Name: "mid", T: c.genStructObject(depth+1, c.nextID("P3o"), "P3")}, {Name: "other", T: c.genStructObject(depth+1, c.nextID("P3o"), "P3")}, {Name: "tag", T: strT()}}
 	}
@@ -570,7 +593,7 @@ func (c *ctx) genOneOf(depth int) *Shape {
 			obj.Props = append(obj.Props, &Prop{Name: s.Disc, T: dt, Required: r.Bool()})
 		}
 		if wrapInScope {
-			m.T = &Shape{Kind: KScope, Root: obj.ID, Objects: []*Shape{obj}}
+			m.T = &Shape{Kind: KScope, Root: obj.ID, Objects: []*Shape{obj}, Typed: c.cfg.TypedVariants && !c.cfg.Describable && r.Chance(25)}
 		} else {
 			m.T = obj
 		}
@@ -622,6 +645,9 @@ func (c *ctx) genScope(depth int, top bool) *Shape {
 	}
 	if c.cfg.Recursion {
 		breakCycles(s)
+	}
+	if !top && c.cfg.TypedVariants && !c.cfg.Describable && r.Chance(25) {
+		s.Typed = true
 	}
 	return s
 }
